@@ -1,13 +1,19 @@
-import Proofs.NamespaceC09
+import Proofs.NamespaceC19
+import Proofs.NamespaceBook
+import Proofs.NamespaceExample
 /-! C19 - definitions outside the dependency closure cannot influence the result (model level).
     Proved: everything that is inspected when a directory is listed (`mkDef`: name, version, port-ID, file-name errors),
     the ordering and reference resolution are blind to definition texts; the type of a definition is a function of the
-    texts of the definitions its references name, recursively (`C19.type_depends_on_closure`).
-    Kept as a statement, validated by the correspondence only: equality of error class and `@print` output of two whole
-    runs (`C19.noninterference_statement`). -/
+    texts of the definitions its references name, recursively (`C19.type_depends_on_closure`); one `read` of a member of a
+    dependency-closed set is blind to every text outside the set and visits only members of it
+    (`C19.read_blind_outside_closure`, `C19.visits_only_closure`); and the whole outcome of `read_namespace` / `read_files`
+    (types or error class, `@print` output - through the cache, the file pool and the direct / transitive book-keeping) is
+    the same for two file systems that have the same file names and agree on the text of every definition in the
+    dependency closure of the targets (`C19.noninterference`, `C19.noninterference_files`,
+    `C19.noninterference_two_filesystems`, `C19.noninterference_two_filesystems_files`).
+    The dependency closure is `Ns.DepClosure` (Proofs/NamespaceC19.lean): the targets and, recursively, every lookup
+    definition whose (name, version) a reference of a parsing member names. -/
 open Ns
-
-def retext (f : Def → Text) (d : Def) : Def := { d with text := f d }
 
 /-- listing a directory looks at paths only: same definitions, same errors, whatever the texts are -/
 theorem C19.listing_text_blind (tgt : Bool) (e : FileEntry) (t' : Text) :
@@ -27,27 +33,7 @@ theorem C19.file_name_error_text_blind (tgt : Bool) (e : FileEntry) (t' : Text) 
 
 /-- resolution filters the lookup list by name and version only -/
 theorem C19.resolve_text_blind (f : Def → Text) (L : List Def) (d : Def) (r : Ref) :
-    resolve (L.map (retext f)) (retext f d) r = (resolve L d r).map (retext f) := by
-  unfold resolve
-  have hc : completeName (retext f d) r.name = completeName d r.name := rfl
-  rw [hc, List.filter_map]
-  have : (refMatches (completeName d r.name) r.major r.minor ∘ retext f) = refMatches (completeName d r.name) r.major r.minor := by
-    funext y; rfl
-  rw [this]
-  generalize L.filter (refMatches (completeName d r.name) r.major r.minor) = F
-  match F with
-  | [] => rfl
-  | [x] =>
-    simp only [List.map, pick]
-    have : (retext f x).name = x.name := rfl
-    rw [this]
-    split <;> rfl
-  | x :: y :: _ =>
-    simp only [List.map, pick]
-    have h1 : (retext f x).name = x.name := rfl
-    have h2 : (retext f y).name = y.name := rfl
-    rw [h1, h2]
-    split <;> rfl
+    resolve (L.map (retext f)) (retext f d) r = (resolve L d r).map (retext f) := resolve_retext f L d r
 
 /-- The type of a definition is determined by its own text and the types of the definitions its references name
     (recursively: `Den` only ever looks at `d.text` of definitions reached through `ExactRef`): two namespaces in which
@@ -57,16 +43,150 @@ theorem C19.type_depends_on_closure (au : Bool) (Lb L : List Def) (d : Def) (st 
     (hc : CacheOk (DenR au Lb) st) (h : (readObj au L d st).1 = .ok t) (hd : Den au Lb t' d) : t = t' :=
   Den.unique ((readObj_den au Lb L d st hL hc).2 t h) hd
 
-/-- Full non-interference statement (types or error class, and prints, of a whole `read_namespace`): two enumerations
-    with the same file names whose texts agree on every definition that is read (targets and visited dependencies of the
-    first run) give the same outcome. -/
-def C19.noninterference_statement : Prop :=
-  ∀ (files files' : List FileEntry) (root : Path) (lookups : List Path) (ac au : Bool),
-    files.map (fun e => (e.dir, e.sub, e.fname)) = files'.map (fun e => (e.dir, e.sub, e.fname)) →
-    (∀ e e', (e, e') ∈ files.zip files' → e.text ≠ e'.text →
-      e.dir ≠ root ∧ ∀ L d st, ∀ x ∈ (readObj au L d st).2.visited, x.path ≠ e.dir ++ e.sub ++ [e.fname]) →
-    (readNamespace files' root lookups ac au).res = (readNamespace files root lookups ac au).res ∧
-    (readNamespace files' root lookups ac au).prints = (readNamespace files root lookups ac au).prints
+/-- One `read` of a definition never looks at a text outside the dependency closure: for every set `C` of definitions
+    that is closed under "a reference of a member names it" (`DepClosed`), every replacement `f` of texts that leaves the
+    members of `C` alone, every lookup list, cache and book-keeping state, reading a member of `C` against the re-texted
+    lookup list gives the same type or error, the same cache, the same `@print` output and the same visited list. -/
+theorem C19.read_blind_outside_closure (au : Bool) (f : Def → Text) (C : Def → Prop) (hC : ∀ x, C x → retext f x = x)
+    (L : List Def) (d : Def) (st : St) (hcl : DepClosed L C) (hd : C d) :
+    readObj au (L.map (retext f)) d st = readObj au L d st := readObj_sim f C hC au L d st hcl hd
+
+/-- ... and everything it visits lies in the closure -/
+theorem C19.visits_only_closure (au : Bool) (C : Def → Prop) (L : List Def) (d : Def) (st : St) (hcl : DepClosed L C) (hd : C d)
+    (hv : ∀ y ∈ st.visited, C y) : ∀ y ∈ (readObj au L d st).2.visited, C y := readObj_visC C au L d st hcl hd hv
+
+/-- Non-interference for `read_namespace`, whole outcome (types or error class, and `@print` output, through the cache and
+    the direct / transitive book-keeping): let the second file system be the first one with the text of the file at path
+    `p` replaced by `f p text`, for an arbitrary `f` that does not change the text of any definition in the dependency
+    closure (`DepClosure`: the targets, and recursively every lookup definition that a reference of a parsing member
+    names) - then the two calls have the same outcome.  File names are untouched, so a malformed file name in a lookup
+    directory is reported by both. -/
+theorem C19.noninterference (files : List FileEntry) (f : Path → Text → Text) (root : Path) (lookups : List Path) (ac au : Bool)
+    (h : ∀ L ts, collect false files (dedupPaths (lookups ++ [root])) = .ok L → collect true files [root] = .ok ts →
+      ∀ d, DepClosure L ts d → f d.path d.text = d.text) :
+    readNamespace (files.map (retextE f)) root lookups ac au = readNamespace files root lookups ac au := by
+  unfold readNamespace
+  simp only
+  cases dirsCheck (dedupPaths (lookups ++ [root])) ac with
+  | error e => rfl
+  | ok u =>
+    simp only
+    rw [collect_retextE f true]
+    cases hT : collect true files [root] with
+    | error e => rfl
+    | ok ts =>
+      simp only [Except.map]
+      cases hL : collect false files (dedupPaths (lookups ++ [root])) with
+      | error e =>
+        have e1 : ∀ tg, completeRead au (files.map (retextE f)) tg (dedupPaths (lookups ++ [root])) = ⟨.error e, []⟩ := by
+          intro tg; unfold completeRead; rw [collect_retextE, hL]; rfl
+        have e2 : ∀ tg, completeRead au files tg (dedupPaths (lookups ++ [root])) = ⟨.error e, []⟩ := by
+          intro tg; unfold completeRead; rw [hL]
+        cases ts with
+        | nil => rfl
+        | cons a r => simp only [List.map_cons, e1, e2]
+      | ok L =>
+        have hts : ts.map (retextD f) = ts := by
+          conv => rhs; rw [← List.map_id ts]
+          apply List.map_congr_left
+          intro t ht
+          have := h L ts hL hT t (DepClosure.target ht)
+          cases t
+          simp only [retext, id] at this ⊢
+          rw [this]
+        rw [hts]
+        cases ts with
+        | nil => rfl
+        | cons a r =>
+          simp only
+          exact completeRead_retextE f au files (a :: r) _ (fun L' hL' d hd => h L' (a :: r) hL' hT d hd)
+
+/-- Non-interference for `read_files`: the targets are given by name, every other definition - in the lookup directories
+    and in the targets' own root namespaces - may be replaced outside the dependency closure of the targets. -/
+theorem C19.noninterference_files (files targets : List FileEntry) (f : Path → Text → Text) (roots lookups : List Path) (au : Bool)
+    (h : ∀ ts L, mapMDefs true targets = .ok ts →
+      collect false files (dedupPaths (lookups ++ ts.map Def.root ++ roots)) = .ok L →
+      ∀ d, DepClosure L ts d → f d.path d.text = d.text) :
+    readFiles (files.map (retextE f)) targets roots lookups au = readFiles files targets roots lookups au := by
+  unfold readFiles
+  cases hT : mapMDefs true targets with
+  | error e => rfl
+  | ok ts =>
+    cases ts with
+    | nil => rfl
+    | cons a r =>
+      simp only
+      cases dirsCheck (dedupPaths (lookups ++ List.map Def.root (a :: r) ++ roots)) true with
+      | error e => rfl
+      | ok u =>
+        simp only
+        apply completeRead_retextE
+        intro L hL d hd
+        apply h (a :: r) L hT hL d
+        exact DepClosure.least (fun t ht => DepClosure.target (mem_sortDefs.mp ht)) (DepClosure.closed L (a :: r)) hd
+
+/-- The same for two file systems given as such: two enumerations with the same file names (pairwise distinct paths) whose
+    texts agree on every definition in the dependency closure of the targets - every pair of entries with different
+    texts is a file outside the closure computed in the first file system - give the same outcome of `read_namespace`
+    (types or error class, `@print` output). -/
+theorem C19.noninterference_two_filesystems (files files' : List FileEntry) (root : Path) (lookups : List Path) (ac au : Bool)
+    (hn : files.map (fun e => (e.dir, e.sub, e.fname)) = files'.map (fun e => (e.dir, e.sub, e.fname)))
+    (hnd : (files.map FileEntry.path).Nodup)
+    (h : ∀ e e', (e, e') ∈ files.zip files' → e.text ≠ e'.text →
+      ∀ L ts, collect false files (dedupPaths (lookups ++ [root])) = .ok L → collect true files [root] = .ok ts →
+        ∀ d, DepClosure L ts d → d.path ≠ e.path) :
+    readNamespace files' root lookups ac au = readNamespace files root lookups ac au := by
+  have hf := same_names_retextE files files' [] hn hnd (by intro q hq; cases hq)
+  simp only [List.nil_append] at hf
+  rw [hf]
+  apply C19.noninterference
+  intro L ts hL hts d hd
+  have hlen : files.length = files'.length := by simpa using congrArg List.length hn
+  have hfrom : ∃ e ∈ files, ∃ tg, mkDef tg e = .ok d := by
+    rcases hd.mem with hm | hm
+    · obtain ⟨e, he, _, _, hm⟩ := collect_mem hL d hm
+      exact ⟨e, he, false, hm⟩
+    · obtain ⟨e, he, _, _, hm⟩ := collect_mem hts d hm
+      exact ⟨e, he, true, hm⟩
+  obtain ⟨e, he, tg, hm⟩ := hfrom
+  obtain ⟨hp, _, ht⟩ := mkDef_path hm
+  obtain ⟨e', hz, hta⟩ := textAt_zip_of_mem hlen hnd he d.text
+  have hpe : d.path = e.path := hp
+  rw [hpe, hta]
+  by_cases hne : e.text = e'.text
+  · rw [← hne, ht]
+  · exact absurd hpe (h e e' hz hne L ts hL hts d hd)
+
+/-- ... and of `read_files` -/
+theorem C19.noninterference_two_filesystems_files (files files' targets : List FileEntry) (roots lookups : List Path) (au : Bool)
+    (hn : files.map (fun e => (e.dir, e.sub, e.fname)) = files'.map (fun e => (e.dir, e.sub, e.fname)))
+    (hnd : (files.map FileEntry.path).Nodup)
+    (h : ∀ e e', (e, e') ∈ files.zip files' → e.text ≠ e'.text →
+      ∀ ts L, mapMDefs true targets = .ok ts →
+        collect false files (dedupPaths (lookups ++ ts.map Def.root ++ roots)) = .ok L →
+        ∀ d, DepClosure L ts d → d.path ≠ e.path)
+    (hsub : ∀ e ∈ targets, e ∈ files) :
+    readFiles files' targets roots lookups au = readFiles files targets roots lookups au := by
+  have hf := same_names_retextE files files' [] hn hnd (by intro q hq; cases hq)
+  simp only [List.nil_append] at hf
+  rw [hf]
+  apply C19.noninterference_files
+  intro ts L hts hL d hd
+  have hlen : files.length = files'.length := by simpa using congrArg List.length hn
+  have hfrom : ∃ e ∈ files, ∃ tg, mkDef tg e = .ok d := by
+    rcases hd.mem with hm | hm
+    · obtain ⟨e, he, _, _, hm⟩ := collect_mem hL d hm
+      exact ⟨e, he, false, hm⟩
+    · obtain ⟨e, he, hm⟩ := mapMDefs_mem hts d hm
+      exact ⟨e, hsub e he, true, hm⟩
+  obtain ⟨e, he, tg, hm⟩ := hfrom
+  obtain ⟨hp, _, ht⟩ := mkDef_path hm
+  obtain ⟨e', hz, hta⟩ := textAt_zip_of_mem hlen hnd he d.text
+  have hpe : d.path = e.path := hp
+  rw [hpe, hta]
+  by_cases hne : e.text = e'.text
+  · rw [← hne, ht]
+  · exact absurd hpe (h e e' hz hne ts L hts hL d hd)
 
 section NonVacuity
 private def S : Text := ⟨false, ⟨[.prim 8], .sealed⟩, none⟩
@@ -74,4 +194,42 @@ private def G : Text := ⟨true, ⟨[], .none⟩, none⟩
 example : mkDef false ⟨["w", "ns"], ["x"], "7000.A.1.0.dsdl", G⟩ = (mkDef false ⟨["w", "ns"], ["x"], "7000.A.1.0.dsdl", S⟩).map fun d => { d with text := G } :=
   C19.listing_text_blind false ⟨["w", "ns"], ["x"], "7000.A.1.0.dsdl", S⟩ G
 example : (mkDef false ⟨["w", "ns"], ["x"], "7000.A.1.0.dsdl", S⟩).toOption.map Def.key = some ("ns.x.A", 1, 0) := by decide +kernel
+
+/- a worked instance (Proofs/NamespaceExample.lean): `ns/A.1.0` has a field of type `ns.B.1.0`; `other/C.1.0` is outside the
+   dependency closure of `A` and is replaced by garbage: same outcome -/
+open Ns.Example in
+example : Example.fs.map (retextE garbleC) ≠ Example.fs ∧
+    readFiles (Example.fs.map (retextE garbleC)) [eA] [] [["w", "other"]] false = ⟨.ok ([TA], [TB]), []⟩ := by
+  refine ⟨garbleC_changes, ?_⟩
+  rw [C19.noninterference_files Example.fs [eA] garbleC [] [["w", "other"]] false, evalFiles]
+  intro ts L hts hL d hd
+  have e1 : ts = [dA true] := by simp [mapMDefs, mkA] at hts; exact hts.symm
+  subst e1
+  have h2 : dedupPaths ([["w", "other"]] ++ List.map Def.root [dA true] ++ []) = Example.dirs := by decide +kernel
+  rw [h2, collectL] at hL
+  cases hL
+  exact garbleC_outside (fun t ht => Or.inl (by simpa using ht)) hd
+open Ns.Example in
+example : readNamespace (Example.fs.map (retextE garbleC)) ["w", "ns"] [["w", "other"]] true false = ⟨.ok ([TA, TB], []), []⟩ := by
+  rw [C19.noninterference Example.fs garbleC, evalNs]
+  intro L ts hL hts d hd
+  have h1 : dedupPaths ([["w", "other"]] ++ [["w", "ns"]]) = Example.dirs := by decide +kernel
+  rw [h1, collectL] at hL
+  rw [collectT] at hts
+  cases hL; cases hts
+  exact garbleC_outside (fun t ht => by simpa using ht) hd
+open Ns.Example in
+example : readNamespace [eA, eB, { eC with text := Example.G }] ["w", "ns"] [["w", "other"]] true false = ⟨.ok ([TA, TB], []), []⟩ := by
+  rw [C19.noninterference_two_filesystems Example.fs [eA, eB, { eC with text := Example.G }] _ _ _ _ (by decide +kernel) (by decide +kernel),
+    evalNs]
+  intro e e' hz hne L ts hL hts d hd
+  have h1 : dedupPaths ([["w", "other"]] ++ [["w", "ns"]]) = Example.dirs := by decide +kernel
+  rw [h1, collectL] at hL
+  rw [collectT] at hts
+  cases hL; cases hts
+  simp only [Example.fs, List.zip_cons_cons, List.zip_nil_right, List.mem_cons, Prod.mk.injEq, List.not_mem_nil, or_false] at hz
+  rcases hz with ⟨rfl, rfl⟩ | ⟨rfl, rfl⟩ | ⟨rfl, rfl⟩
+  · exact absurd rfl hne
+  · exact absurd rfl hne
+  · rcases closureAB (fun t ht => by simpa using ht) hd with rfl | rfl | rfl <;> decide +kernel
 end NonVacuity
